@@ -162,7 +162,7 @@ func getPool() []poolItem {
 	}
 	corpus, _ := workload.Corpus()
 	for _, p := range corpus {
-		if !workload.Deterministic(p.Src) || len(p.Inputs) == 0 {
+		if !workload.Deterministic(p.Src) || !workload.Tame(p.Src) || len(p.Inputs) == 0 {
 			continue
 		}
 		pool = append(pool, poolItem{ProgSpec{Src: p.Src, VarNames: p.VarNames, VarVals: p.VarVals}, p.Inputs[0]})
@@ -190,7 +190,7 @@ func genHistory(seed uint64, idx int, tr tiers) Data {
 			it = pl[r.Intn(len(pl))]
 		case 3:
 			it = pl[r.Intn(len(pl))]
-			if m := workload.MutateProgram(r, it.p.Src); workload.Deterministic(m) {
+			if m := workload.MutateProgram(r, it.p.Src); workload.Deterministic(m) && workload.Tame(m) {
 				it.p.Src = m
 			}
 		default:
